@@ -78,9 +78,33 @@ def main():
                 table.append(["IfElse", c, a, b, outcome_real(lambda: real_val(*c).if_else(real_val(*a), real_val(*b))),
                               outcome_abs(lambda: abs_val(*c).if_else(abs_val(*a), abs_val(*b)))])
     out = []
-    for e, val in zip(spec["exprs"], spec["valuations"]):
+
+    def abs_from_context(e, val):
+        """the way a user supplies concrete values: Abstract.initialize(context) and typed Inputs that look their value up"""
+        ab.Abstract.initialize(context={f"v{j}": v for j, v in enumerate(val)})
+        pty = ab.Party("P")
+
+        def mk(mode, base, value):
+            if mode == "Const" or base != "Int":
+                return abs_val(mode, base, value)
+            return getattr(ab, MODES[mode] + BASE[base])(ab.Input(f"v{mk.idx}", pty))
+
+        def go(x):
+            k = x[0]
+            if k == "in":
+                mk.idx = x[3]
+                return mk(x[1], x[2], val[x[3]])
+            if k == "lit":
+                return ab.Integer(x[1])
+            if k == "bin":
+                return OPS[x[1]](go(x[2]), go(x[3]))
+            return go(x[1]).if_else(go(x[2]), go(x[3]))
+        return go(e)
+    for k, (e, val) in enumerate(zip(spec["exprs"], spec["valuations"])):
+        via_context = (k % 2 == 0)
         out.append({"real": outcome_real(lambda: ev(e, lambda m, b, v: real_val(m, b), None)),
-                    "abs": outcome_abs(lambda: ev(e, abs_val, val))})
+                    "abs": outcome_abs((lambda: abs_from_context(e, val)) if via_context else (lambda: ev(e, abs_val, val)))})
+    ab.Abstract.initialize()
     json.dump({"table": table, "exprs": out}, sys.stdout)
 
 
